@@ -7,7 +7,7 @@ use crate::rng::Rng;
 use serde::{Deserialize, Serialize};
 
 pub const LOCALS: [&str; 6] = ["a", "b", "c", "d", "e", "f"];
-pub const URIS: [&str; 3] = ["urn:x", "urn:y", "urn:z"];
+pub const URIS: [&str; 4] = ["urn:x", "urn:y", "urn:z", "urn:w?a=1&b=\"2\""];
 pub const PREFIXES: [&str; 3] = ["p", "q", "r"];
 pub const TEXTS: [&str; 12] = ["t", "x y", " ", "hello", "<&>", "é", "a]]>b", "  \n ", "1", "\"q'", "zz", "\u{1F600}"];
 pub const ATTR_VALUES: [&str; 8] = ["v", "", "x y", "<&\">", "é", "w'w", "1", "long value here"];
@@ -95,12 +95,12 @@ pub fn gen_doc(rng: &mut Rng, cfg: &GenCfg) -> ADoc {
     let mut before = vec![];
     let mut after = vec![];
     if rng.pct(cfg.misc_pct) {
-        for _ in 0..rng.range(1, 2) {
+        for _ in 0..rng.range(1, 4) {
             before.push(gen_misc(rng));
         }
     }
     if rng.pct(cfg.misc_pct) {
-        for _ in 0..rng.range(1, 2) {
+        for _ in 0..rng.range(1, 4) {
             after.push(gen_misc(rng));
         }
     }
